@@ -373,6 +373,31 @@ func verifRepairTS(ts *conf_v1.TransportServer, r *verifRng) {
 		if r.below(3) != 0 {
 			s.TLS = nil
 		}
+	} else {
+		// a listener of the GlobalConfiguration (two times in three; otherwise whatever the filler produced: an unknown listener)
+		switch r.below(3) {
+		case 0:
+			s.Listener = conf_v1.TransportServerListener{Name: "tcp1", Protocol: "TCP"}
+		case 1:
+			s.Listener = conf_v1.TransportServerListener{Name: "udp1", Protocol: "UDP"}
+			s.Host = ""
+		}
+		// TLS termination: nothing, an empty block (`tls: {}` is admissible without a host), a Secret that exists / does not
+		switch r.below(4) {
+		case 0:
+			s.TLS = nil
+		case 1:
+			s.TLS = &conf_v1.TransportServerTLS{}
+		case 2:
+			s.TLS = &conf_v1.TransportServerTLS{Secret: "k5"}
+		default:
+			s.TLS = &conf_v1.TransportServerTLS{Secret: "nosuch"}
+		}
+		if s.TLS == nil || s.TLS.Secret == "" || s.Listener.Protocol == "UDP" {
+			s.Host = ""
+		} else if r.below(2) == 0 {
+			s.Host = "tt.ex"
+		}
 	}
 	if len(s.Upstreams) == 0 && r.below(3) != 0 {
 		s.Upstreams = []conf_v1.TransportServerUpstream{{}}
